@@ -21,7 +21,7 @@ RULE = ('alphabet: local {final headers, headers+END_STREAM, informational, trai
         'trailers, DATA, DATA+END_STREAM, RST_STREAM, WINDOW_UPDATE, PUSH_PROMISE, naked CONTINUATION, PRIORITY, '
         'ALTSVC} on one target stream; contexts {client-opened, server-side inbound, reserved (local), reserved '
         '(remote), upgraded stream 1 on each side, a never-promised even id on each side, alone or below odd ids already in use} x {closed streams cleaned up after every step or not}; all '
-        'sequences to the depth bound plus generated sequences of up to 30 steps over three streams; non-trivial = '
+        'sequences to the depth bound plus generated sequences of up to 30 steps, which also toggle either side\'s INITIAL_WINDOW_SIZE between 0 and 65535 (sending window at or below zero, receiving window exhausted); non-trivial = '
         'the sequence reaches a state other than idle/open or has a rejected step followed by further steps; '
         'distinct by (context, sequence)')
 ASSUMPTIONS = ['leniency table of DESIGN.md s4.3', 'a sequence ends at the first connection error (C19 covers what '
@@ -34,8 +34,14 @@ LOCAL = ['L:final', 'L:final+es', 'L:info', 'L:trailers', 'L:data', 'L:data+es',
 RECV = ['R:final', 'R:final+es', 'R:info', 'R:trailers', 'R:data', 'R:data+es', 'R:rst', 'R:wu', 'R:push',
         'R:cont', 'R:prio', 'R:altsvc']
 ALPHABET = LOCAL + RECV
+# generated sequences also move the two INITIAL_WINDOW_SIZE settings between 0 and 65535 (peer's: our sending window
+# on live streams goes to zero or below; ours, acknowledged at once: the streams' receiving windows do), because
+# flow-control checks sit next to the state checks and must not replace or precede them
+ALPHABET_GEN = ALPHABET + ['R:iws', 'L:iws']
 CONTEXTS = ['client-idle', 'server-idle', 'reserved-local', 'reserved-remote', 'upgraded-client', 'upgraded-server',
             'client-idle-even', 'server-idle-even', 'client-busy-even', 'server-busy-even']
+SEND_OPENERS = {'client-idle': ['L:final'], 'server-idle': ['R:final', 'L:final'], 'reserved-local': ['L:final'],
+                'upgraded-server': ['L:final']}
 INFO = [(b':status', b'103')]
 TRAILERS = [(b'x-trailer', b'v')]
 AVOID = set()
@@ -63,6 +69,8 @@ class World:
         self.s = Solo(client)
         self.m = M.Conn(client)
         self.next_promise = 2
+        self.peer_iws = 65535
+        self.local_iws = 65535
         s, m = self.s, self.m
         if context.startswith('upgraded'):
             if client:
@@ -155,10 +163,30 @@ def local_step(world, name, r, tag):
         o = s.call('send_headers', t, hdrs, end_stream=es)
         if verdict == M.PERMIT and o.ok:
             m.apply_send_headers(t, what, es)
+    elif name == 'iws':
+        # our INITIAL_WINDOW_SIZE toggles between 0 and 65535 and the peer acknowledges at once
+        world.local_iws = 0 if world.local_iws else 65535
+        o = s.call('update_settings', {wire.S_INITIAL_WINDOW_SIZE: world.local_iws})
+        o2 = s.feed(wire.settings(ack=True)) if o.ok else o
+        r.step('call', 'update_settings INITIAL_WINDOW_SIZE', world.local_iws, o.brief(), 'acknowledged', o2.brief())
+        if not o.ok or not o2.ok or any(f.type != wire.WINDOW_UPDATE for f in o2.frames):
+            r.violate('C06:send:iws:%s:settings-change-failed' % tag, '%s %s %r' % (o.brief(), o2.brief(), o2.frames))
+            return 'stop'
+        r.labels.add('local-initial-window-size-changed')
+        return 'continue'
     elif name in ('data', 'data+es'):
         es = name == 'data+es'
         verdict, what = m.send_data_verdict(t, es)
+        q = s.call('local_flow_control_window', t)
         o = s.call('send_data', t, b'abc', end_stream=es)
+        if verdict == M.PERMIT and q.ok and q.value < 3 and not o.ok and o.exc_name == 'FlowControlError':
+            # the state permits DATA, the window (C03's subject; the library's own figure is used) does not:
+            # an inert refusal
+            r.step('call', name, 'window', q.value, 'library', o.brief())
+            r.labels.add('data-refused-by-window')
+            if o.out:
+                r.violate('C06:send:%s:%s:refused-call-emitted' % (name, tag), o.out.hex()[:60])
+            return 'rejected'
         if verdict == M.PERMIT and o.ok:
             if es:
                 m.get(t).send_end()
@@ -246,9 +274,33 @@ def recv_step(world, name, r, tag):
         got = observe(o, t)
         if got == M.ACCEPT and M.ACCEPT in want:
             m.apply_recv_headers(t, what, es)
+    elif name == 'iws':
+        # the peer's INITIAL_WINDOW_SIZE toggles between 0 and 65535
+        world.peer_iws = 0 if world.peer_iws else 65535
+        o = s.feed(wire.settings([(wire.S_INITIAL_WINDOW_SIZE, world.peer_iws)]))
+        r.step('recv', 'SETTINGS INITIAL_WINDOW_SIZE', world.peer_iws, o.brief())
+        if not o.ok or [f.type for f in o.frames] != [wire.SETTINGS]:
+            r.violate('C06:recv:iws:%s:settings-not-acknowledged' % tag, '%s %r' % (o.brief(), o.frames))
+            return 'stop'
+        r.labels.add('peer-initial-window-size-changed')
+        return 'continue'
     elif name in ('data', 'data+es'):
         es = name == 'data+es'
         want = m.recv_data_verdict(t)
+        q = s.call('remote_flow_control_window', t)
+        if q.ok and q.value < 3:
+            st0 = m.get(t)
+            if M.ACCEPT in want:
+                # DATA the state accepts, beyond the window we advertised (C04's subject; the library's own
+                # figure is used)
+                want = {M.C(wire.FLOW_CONTROL_ERROR)}
+                r.labels.add('data-beyond-window-on-live-stream')
+            elif st0 is not None and st0.state != M.CLOSED:
+                # not acceptable in this state and beyond the window: either complaint is right
+                want = set(want) | {M.C(wire.FLOW_CONTROL_ERROR)}
+            else:
+                # a closed stream has no window left to violate: the state's verdict alone
+                r.labels.add('data-on-closed-stream-with-exhausted-window')
         o = s.feed(wire.data(t, b'xyz', end_stream=es))
         got = observe(o, t)
         if got == M.ACCEPT and M.ACCEPT in want and es:
@@ -372,7 +424,11 @@ def run_case(data):
     ctx = ch.pick(CONTEXTS)
     cleanup = ch.bool()
     n = ch.int(4, 30)
-    seq = [ch.pick(ALPHABET) for _ in range(n)]
+    seq = [ch.pick(ALPHABET_GEN) for _ in range(n)]
+    if ctx in SEND_OPENERS and ch.chance(64):
+        # the target stream has sent DATA and the peer then takes the window away: what follows is decided by
+        # the stream's state with a sending window below zero
+        seq = SEND_OPENERS[ctx] + ['L:data', 'R:iws'] + seq[:n - 3]
     return run_sequence(ctx, cleanup, seq)
 
 
